@@ -1260,13 +1260,21 @@ class Table:
         manifest (list) raises instead of returning partial/empty results -
         readers must be able to distinguish "empty table" from "broken table".
         """
-        snapshot = self.current_snapshot()
+        # ONE read of the metadata decides both questions below. Reading it a
+        # second time for the consistency check raced the table's first commit:
+        # "no current snapshot" came from the old version, the id from the new
+        # one, and a perfectly healthy table was reported as inconsistent.
+        metadata = self.metadata_manager.refresh()
+        current_id = metadata.current_snapshot_id if metadata else None
+        snapshot = None
+        if metadata is not None and current_id is not None:
+            snapshot = next(
+                (s for s in metadata.snapshots if s.snapshot_id == current_id), None
+            )
         if not snapshot:
             # An unset current_snapshot_id means "empty table". A SET id that
             # resolves to nothing means the metadata is inconsistent - returning
             # [] there would report a broken table as an empty one (#48).
-            metadata = self.metadata_manager.refresh()
-            current_id = metadata.current_snapshot_id if metadata else None
             if current_id is not None and current_id != -1:
                 raise RuntimeError(
                     f"Table metadata is inconsistent: current_snapshot_id {current_id} "
